@@ -1,7 +1,8 @@
 (** C10 - documented failure conditions are errors, not panics (statements only). *)
 From Coq Require Import List NArith String Bool.
 From V Require Import Base.Strings Base.Result Model.Registry Model.Settings Model.Subst
-  Model.TypePath Model.Derives Model.Generate Model.Emit Model.Equal Proofs.GenProofs Proofs.SortDedup.
+  Model.TypePath Model.Derives Model.Generate Model.Emit Model.Equal Model.WellFormed
+  Proofs.GenProofs Proofs.SortDedup Proofs.ResolveTotal Proofs.GenTotal.
 Import ListNotations.
 
 (** a registry whose ids do not equal their positions is rejected with the id-mismatch error
@@ -19,3 +20,172 @@ Print Assumptions C10_ids_dedup.
 Theorem C10_ids_iff : forall r, first_bad r = None <-> ids_consistent r = true.
 Proof. exact first_bad_none_iff. Qed.
 Print Assumptions C10_ids_iff.
+
+(** ** termination and totality of path resolution (fuel sufficiency).
+    [resolvable r s rank] (Model/WellFormed.v) = the registry is closed (every referenced id is
+    [< length r]); [rank] strictly decreases along the non-field edges (typed type parameters,
+    sequence / array / tuple elements, compact inner, bit store / order) and is [< length r] on
+    valid ids; every entry satisfies [resolvable_entryb] (a last path segment ["Cow"] comes with a
+    typed first parameter; Composite / Variant entries have a >= 2 segment path of lexical
+    identifiers or a 1 segment path from [prelude_table]; no U256 / I256); the settings have a
+    compact (bits) path whenever a Compact (BitSequence) entry exists.
+    Conclusion: with the fuel the model starts from, resolution of every valid id - as a field
+    or not, under any parent parameters - is [Ok] (never [EOutOfFuel], [Panic] or another
+    error), and printing the resulting path is [Ok] as well. *)
+Theorem C10_resolve_total :
+  forall r s rank, resolvable r s rank ->
+  forall id, in_reg r id -> forall parents orig is_field,
+  exists t, resolve_rec r s (fuel0 r) id is_field parents orig = Ok t /\
+            exists toks, tp_tokens (alloc_tokens (s_alloc s)) t = Ok toks.
+Proof. exact resolve_total. Qed.
+Print Assumptions C10_resolve_total.
+
+(** fuel sufficiency proper: any fuel above the rank of the id is enough, and the result
+    contains no 256-bit primitive *)
+Theorem C10_resolve_fuel :
+  forall r s rank, resolvable r s rank ->
+  forall fuel id is_field parents orig, in_reg r id -> rank id < fuel ->
+  exists t, resolve_rec r s fuel id is_field parents orig = Ok t /\ no256 t = true.
+Proof. exact resolve_rec_total. Qed.
+Print Assumptions C10_resolve_fuel.
+
+(** the boolean acyclicity check evaluated on every generated case constructs a rank function *)
+Theorem C10_rank_ok_sound : forall r, rank_ok r = true -> exists rank, ranked r rank.
+Proof. exact rank_ok_sound. Qed.
+Print Assumptions C10_rank_ok_sound.
+
+(** the run-time hypothesis ([hyp_wf] = [wf_regb && supportedb]) implies the Prop class *)
+Theorem C10_wf_generable :
+  forall r s, wf_regb r = true -> supportedb r s = true -> exists rank, generable r s rank.
+Proof. exact wf_generable. Qed.
+Print Assumptions C10_wf_generable.
+
+Theorem C10_resolve_total_wf :
+  forall r s, wf_regb r = true -> supportedb r s = true ->
+  forall id, in_reg r id -> forall parents orig is_field,
+  exists t, resolve_rec r s (fuel0 r) id is_field parents orig = Ok t /\
+            exists toks, tp_tokens (alloc_tokens (s_alloc s)) t = Ok toks.
+Proof. exact resolve_total_wf. Qed.
+Print Assumptions C10_resolve_total_wf.
+
+(** ** totality of generation.  [generable r s rank] = ids equal positions, [resolvable], every
+    Composite / Variant entry has a non-empty path of [ident_okb] segments, [ident_okb] field and
+    variant names and all-named-or-all-unnamed field lists ([item_entryb]), every path segment of
+    every entry is [ident_okb] ([flat_entryb], needed by the recursive-derive flattening). *)
+Theorem C10_create_type_ir_total :
+  forall r s rank, generable r s rank -> forall id t flat, resolve r id = Some t ->
+  exists o, create_type_ir r s t flat = Ok o /\ forall ir, o = Some ir -> ir_no256 ir.
+Proof. exact create_type_ir_total_pinned. Qed.
+Print Assumptions C10_create_type_ir_total.
+
+(** [flatten_recursive_derives] ([collect_type_ids] with fuel [S (length r)]) terminates *)
+Theorem C10_flatten_total :
+  forall dr r, ids_consistent r = true -> closed r -> entries_ok flat_entryb r ->
+  exists flat, flatten dr r = Ok flat.
+Proof. exact flatten_total. Qed.
+Print Assumptions C10_flatten_total.
+
+(** [types_equal] neither panics nor runs out of fuel on a closed registry *)
+Theorem C10_types_equal_total :
+  forall r, closed r -> forall a b, in_reg r a -> in_reg r b -> exists x, types_equal r a b = Ok x.
+Proof. exact types_equal_total. Qed.
+Print Assumptions C10_types_equal_total.
+
+(** generation is [Ok] or the duplicate-path error - never a panic, fuel exhaustion or another
+    error - and an [Ok] result is emitted without failure *)
+Theorem C10_total :
+  forall r s rank, generable r s rank ->
+  (exists m, generate r s (types_equal r) = Ok m /\ exists toks, emit_module s m = Ok toks) \/
+  (exists p, generate r s (types_equal r) = Err (EDuplicatePath p)).
+Proof. exact generate_total_types_equal. Qed.
+Print Assumptions C10_total.
+
+Theorem C10_total_wf :
+  forall r s, wf_regb r = true -> supportedb r s = true ->
+  (exists m, generate r s (types_equal r) = Ok m /\ exists toks, emit_module s m = Ok toks) \/
+  (exists p, generate r s (types_equal r) = Err (EDuplicatePath p)).
+Proof. exact generate_total_wf. Qed.
+Print Assumptions C10_total_wf.
+
+(** ** single faults *)
+(** a struct mixing named and unnamed fields (name fine) is rejected with [InvalidFields] *)
+Theorem C10_fault_mixed :
+  forall r s t flat fs nm,
+  t_def t = TDComposite fs -> path_ident (t_path t) = Some nm -> ident_okb nm = true ->
+  all_named fs || all_unnamed fs = false ->
+  create_type_ir r s t flat = Err EInvalidFields.
+Proof. exact fault_mixed_struct. Qed.
+Print Assumptions C10_fault_mixed.
+
+(** [variants_ir] (Proofs/GenTotal.v) is the variant loop of [create_type_ir], named *)
+Theorem C10_create_type_ir_unfold :
+  forall r s t flat,
+  create_type_ir r s t flat =
+  if negb (is_composite_or_variant (t_def t)) then Ok None
+  else
+    let params := params_from_scale_info (t_params t) in
+    match path_ident (t_path t) with
+    | None => Panic "Structs and enums should have a name"
+    | Some nm =>
+      let* name := parse_ident nm in
+      let docs := docs_from_scale_info s (t_docs t) in
+      let* kcu :=
+        match t_def t with
+        | TDComposite fs =>
+            let* ku := create_composite_ir_kind r s fs params params in
+            Ok (KStruct (mk_ci name (fst ku) docs), could_derive_as_compact (fst ku), snd ku)
+        | TDVariant vs =>
+            let* vu := variants_ir r s params vs params in
+            Ok (KEnum name docs (fst vu), false, snd vu)
+        | _ => Panic "unreachable"
+        end in
+      let '(kind, cdac, unused) := kcu in
+      let* d := resolve_derives_for_type flat t in
+      let d := if cdac then add_as_compact s d else d in
+      Ok (Some (mk_ti params unused d (s_codec s) kind))
+    end.
+Proof. exact create_type_ir_eq. Qed.
+Print Assumptions C10_create_type_ir_unfold.
+
+(** an enum whose variants before [v] are fine and whose variant [v] mixes named and unnamed
+    fields is rejected with [InvalidFields] *)
+Theorem C10_fault_mixed_variant :
+  forall r s t flat vs1 v vs2 nm l1 u1,
+  t_def t = TDVariant (vs1 ++ v :: vs2) -> path_ident (t_path t) = Some nm -> ident_okb nm = true ->
+  variants_ir r s (params_from_scale_info (t_params t)) vs1 (params_from_scale_info (t_params t))
+    = Ok (l1, u1) ->
+  ident_okb (v_name v) = true -> all_named (v_fields v) || all_unnamed (v_fields v) = false ->
+  create_type_ir r s t flat = Err EInvalidFields.
+Proof. exact fault_mixed_variant. Qed.
+Print Assumptions C10_fault_mixed_variant.
+
+(** a Compact type whose parameters and inner type resolve, without a compact path *)
+Theorem C10_fault_compact :
+  forall r s n id is_field parents orig t e ps i,
+  find_parent parents id orig = None -> resolve r id = Some t ->
+  path_ident (t_path t) <> Some "Cow"%string ->
+  mapM (fun c => resolve_rec r s n c false parents None) (param_ids t) = Ok ps ->
+  t_def t = TDCompact e -> resolve_rec r s n e false parents None = Ok i ->
+  s_compact s = None ->
+  resolve_rec r s (S n) id is_field parents orig = Err ECompactPathNone.
+Proof. exact fault_compact. Qed.
+Print Assumptions C10_fault_compact.
+
+(** a BitSequence without a bits path: reported before store / order are looked at *)
+Theorem C10_fault_bits :
+  forall r s n id is_field parents orig t store order ps,
+  find_parent parents id orig = None -> resolve r id = Some t ->
+  path_ident (t_path t) <> Some "Cow"%string ->
+  mapM (fun c => resolve_rec r s n c false parents None) (param_ids t) = Ok ps ->
+  t_def t = TDBitSeq store order -> s_bits s = None ->
+  resolve_rec r s (S n) id is_field parents orig = Err EBitsPathNone.
+Proof. exact fault_bits. Qed.
+Print Assumptions C10_fault_bits.
+
+(** a reference to a missing id is [TypeNotFound id], at any position resolution reaches *)
+Theorem C10_fault_missing :
+  forall r s n id is_field parents orig,
+  resolve r id = None -> find_parent parents id orig = None ->
+  resolve_rec r s (S n) id is_field parents orig = Err (ETypeNotFound id).
+Proof. exact fault_missing. Qed.
+Print Assumptions C10_fault_missing.
